@@ -3,7 +3,8 @@
 Fault enumeration on the real export code: for write_rtf / write_docx / write_html / write_pdf x
 target pre-state {absent, existing, inside two missing directories} x converter stub behaviour
 {success, success + HTML resource folder, raises before output, writes output then raises, returns
-a list / None / a str / a Path that does not exist, no converter (LibreOffice absent)}: an injected
+a list / None / a str / a Path that does not exist, no converter (LibreOffice absent), the library's own
+LibreOfficeConverter with a stand-in soffice executable (converts / fails / output then fails / no output)}: an injected
 Exception and an injected BaseException at library call instances of the export (quick: first and
 last instance of every call site; thorough: every instance), plus a second fault after every fault
 the library swallowed.  Oracle on the sandbox snapshot before/after each call.
@@ -27,7 +28,7 @@ LEVEL_NOTE = ("A crash is modelled as exception unwinding (a killed process cann
 METHODS = ("rtf", "docx", "html", "pdf")
 PRE = ("absent", "exists", "missingdir")
 PRE_MORE = ("exists_binary", "exists_same", "exists_same_crlf")  # particular contents of a pre-existing target
-STUBS = ("ok", "html_res", "raise_before", "raise_after", "list", "none", "str", "missing_path", "default")
+STUBS = ("ok", "html_res", "raise_before", "raise_after", "list", "none", "str", "missing_path", "default") + F.REAL_MODES
 DOCS = ("table", "paged", "figure")
 
 
@@ -244,7 +245,7 @@ def eval_case(case: dict) -> dict:
 
 def plan(run):
     quick = run.tier == "quick"
-    run.rule = ("export method {rtf,docx,html,pdf} x target {absent, exists, two missing directories} x converter stub {9 behaviours} without fault; then an injected Exception and "
+    run.rule = ("export method {rtf,docx,html,pdf} x target {absent, exists, two missing directories} x converter {9 stub behaviours; the library's own LibreOfficeConverter driving a stand-in soffice that converts / fails / writes output then fails / writes nothing} without fault; then an injected Exception and "
                 "an injected BaseException at library call instances (quick: first and last instance of every call site, all three pre-states for write_rtf and write_html, "
                 "seed-rotated pre-state for docx/pdf; thorough: every instance, every pre-state, three documents), plus second faults after swallowed ones; then export histories on one document object: "
                 "earlier export {write_rtf ok, write_docx ok, write_pdf converter raises, write_html converter raises after output, write_pdf converter returns a missing path} x edit "
@@ -276,10 +277,12 @@ def plan(run):
     # 2. faults
     cases = []
     for (m, stub, pre, kind), (ncalls, site_points, nsites) in sorted(info.items(), key=str):
-        if stub not in (None, "ok", "html_res", "raise_after"):
+        if stub not in (None, "ok", "html_res", "raise_after", "real_ok", "real_fail"):
             continue
         if quick:
             if stub == "raise_after" and m != "docx":
+                continue
+            if stub in ("real_ok", "real_fail") and m != "pdf":
                 continue
             if m in ("docx", "pdf") and pre != PRE[(run.seed + METHODS.index(m)) % 3]:
                 continue
@@ -287,6 +290,8 @@ def plan(run):
                 continue
             if m == "html" and stub == "ok":
                 continue
+            if m == "pdf" and stub == "ok":
+                continue  # pdf is driven through the library's own converter class (real_ok / real_fail) in the quick tier
         pts = site_points if quick else list(range(1, ncalls + 1))
         for i in range(0, len(pts), 25):
             cases.append({"mode": "faults", "method": m, "stub": stub, "pre": pre, "doc": kind, "points": pts[i:i + 25]})
